@@ -99,5 +99,11 @@ func validatePath(path string) error {
 		return errors.New("cannot contain $")
 	}
 
+	// The path is written as an unquoted NGINX parameter: a trailing backslash would escape the character that
+	// follows the parameter (a space or the terminating ';').
+	if strings.HasSuffix(path, `\`) {
+		return errors.New(`cannot end with \`)
+	}
+
 	return nil
 }
